@@ -16,6 +16,8 @@ CONSTANTS
     MaxSpans = 2
     IncomingKinds <- MC_IncBoth
     WithLazy = FALSE
+    WithCancel = FALSE
+    CancelOwnIds = FALSE
     CtxForms <- MC_Forms
     Emit = TRUE
 VIEW sview
